@@ -43,3 +43,28 @@ VARIANTS = [
  dict(name='benign-len-eq-zero', file=T, expect='silent',
       find='\tif len(certificates) < 1 {', replace='\tif len(certificates) == 0 {'),
 ]
+
+# the per-entry processing moved into an unexported helper (the loop hands it the entry), and that form with a rule broken
+ENTRY_OLD = '\t\tcertFileName := file.Name()\n\t\tjoinedPath := filepath.Join(path, certFileName)\n\t\tif file.IsDir() || file.Type()&fs.ModeSymlink != 0 {\n\t\t\treturn nil, CertificateError{Msg: fmt.Sprintf("trusted certificate %s in trust store %s of type %s is not a regular file (directories or symlinks are not supported)", certFileName, namedStore, storeType)}\n\t\t}\n\t\tcerts, err := corex509.ReadCertificateFile(joinedPath)\n\t\tif err != nil {\n\t\t\treturn nil, CertificateError{InnerError: err, Msg: fmt.Sprintf("failed to read the trusted certificate %s in trust store %s of type %s", certFileName, namedStore, storeType)}\n\t\t}\n\t\tif err := ValidateCertificates(certs); err != nil {\n\t\t\treturn nil, CertificateError{InnerError: err, Msg: fmt.Sprintf("failed to validate the trusted certificate %s in trust store %s of type %s", certFileName, namedStore, storeType)}\n\t\t}\n\t\t// we require TSA certificates in trust store to be root CA certificates\n\t\tif storeType == TypeTSA {\n\t\t\tfor _, cert := range certs {\n\t\t\t\tif err := isRootCACertificate(cert); err != nil {\n\t\t\t\t\treturn nil, CertificateError{InnerError: err, Msg: fmt.Sprintf("trusted certificate %s in trust store %s of type %s is invalid: %v", certFileName, namedStore, storeType, err.Error())}\n\t\t\t\t}\n\t\t\t}\n\t\t}\n'
+ENTRY_CALL = '\t\tcerts, err := loadEntry(path, file, storeType, namedStore)\n\t\tif err != nil {\n\t\t\treturn nil, err\n\t\t}\n'
+def entry_helper(body_edit=None, ret='certs'):
+    b = ENTRY_OLD.replace('file.', 'entry.').replace('(path, certFileName)', '(storePath, certFileName)')
+    b = '\n'.join(l[1:] if l.startswith('\t') else l for l in b.split('\n'))
+    if body_edit:
+        assert body_edit[0] in b, body_edit[0]
+        b = b.replace(body_edit[0], body_edit[1])
+    return 'func loadEntry(storePath string, entry fs.DirEntry, storeType Type, namedStore string) ([]*x509.Certificate, error) {\n' + b + '\treturn ' + ret + ', nil\n}\n\n// ValidateCertificates ensures certificates from trust store are'
+HOOK = '// ValidateCertificates ensures certificates from trust store are'
+VARIANTS += [
+ dict(name='benign-entry-helper', file=T, expect='silent', find=ENTRY_OLD, replace=ENTRY_CALL, edits=[(T, HOOK, entry_helper())]),
+ dict(name='entry-helper-accepts-symlinks', file=T, expect='flagged(entry/regular-file)', find=ENTRY_OLD, replace=ENTRY_CALL,
+      edits=[(T, HOOK, entry_helper(('if entry.IsDir() || entry.Type()&fs.ModeSymlink != 0 {', 'if entry.IsDir() {')))]),
+ dict(name='entry-helper-skips-tsa-root-check', file=T, expect='flagged(entry/tsa-roots)', find=ENTRY_OLD, replace=ENTRY_CALL,
+      edits=[(T, HOOK, entry_helper(('if storeType == TypeTSA {', 'if storeType == TypeTSA && len(certs) > 1 {')))]),
+ dict(name='entry-helper-returns-more', file=T, expect='flagged(exact-set/helper-returns-what-it-read)', find=ENTRY_OLD, replace=ENTRY_CALL,
+      edits=[(T, HOOK, entry_helper(ret='append(certs, certs[0])'))]),
+ dict(name='entry-helper-error-ignored', file=T, expect='flagged(entry/)', find=ENTRY_OLD,
+      replace='\t\tcerts, err := loadEntry(path, file, storeType, namedStore)\n\t\tif err != nil {\n\t\t\tcontinue\n\t\t}\n', edits=[(T, HOOK, entry_helper())]),
+ dict(name='entry-helper-reads-other-path', file=T, expect='flagged(exact-set/file-path)', find=ENTRY_OLD, replace=ENTRY_CALL,
+      edits=[(T, HOOK, entry_helper(('filepath.Join(storePath, certFileName)', 'filepath.Join(filepath.Dir(storePath), certFileName)')))]),
+]
